@@ -248,7 +248,11 @@ func execC18(c *Ctx) {
 			c.Reach("disallowed_source")
 		} else if configured && op.Kind == "alive" && !c18Inside(addr, nets) {
 			after := b.n.view("x")
-			if after != held {
+			// (a suspicion timer may legitimately expire while a stream is in
+			// progress, so only what the claim itself could cause is compared)
+			adopted := after.Addr != held.Addr || after.Port != held.Port || after.Meta != held.Meta ||
+				(after.State == StateAlive && after.Inc == inc && !(held.State == StateAlive && held.Inc == inc)) || after.Present != held.Present
+			if adopted {
 				c.Violate("disallowed-claim-had-effect", "", "obs", "%s: record %s -> %s", what, held, after)
 				return
 			}
